@@ -17,11 +17,13 @@ from sexp import Sym
 
 from props import _dfrows_util as U
 
+U.warm()
+
 PROP = "C36"
 READY = True
 DRIVER = "dm_dfrows"
 LEAN_MODULES = ["DaskModel.Props.C36"]
-CASE_TIMEOUT_S = 20
+CASE_TIMEOUT_S = 60
 LEVEL_TEXT = (
     "Proved in Lean for every partitioning (any partition count, empty partitions, any divisions): blockwise_rowlocal "
     "(a per-partition function that distributes over concatenation computes that function of the whole frame: values, "
@@ -310,6 +312,32 @@ def api_step(f, step, is_dask):
     if k == "frame_cmp":
         cols = [c for c in ("i", "f") if c in f.columns]
         return f[(f[cols] > step[1]).all(axis=1)] if cols else f
+    if k == "cast_filter":
+        # a LOSSY cast followed by a filter on the cast values (must not be evaluated on the un-cast frame)
+        if "i" not in f.columns:
+            return f
+        g = f.assign(h=f["i"] * 0.5).astype({"h": "int64"})
+        return g[g["h"] >= step[1]]
+    if k == "cast_filter_series":
+        if "i" not in f.columns:
+            return f
+        h = (f["i"] * 0.5).astype("int64")
+        return f.assign(h2=h)[h == step[1]]
+    if k == "or_filter_binop":
+        # `x - x[(p & q) | (p & r)]`: the rewritten filter is NOT the first operand of its parent
+        if not {"i", "f", "b"} <= set(f.columns):
+            return f
+        x = f[["i", "f"]]
+        flt = x[((f["i"] > step[1]) & (f["f"] > 0)) | ((f["i"] > step[1]) & f["b"])]
+        d = x - flt
+        return f.assign(di=d["i"], df_=d["f"])
+    if k == "filter_reduction":
+        # second filter compares with a reduction of the ALREADY FILTERED column
+        if not {"i", "f"} <= set(f.columns):
+            return f
+        g = f[f["i"] > step[1]]
+        red = getattr(g["f"], step[2])()
+        return g[g["f"] >= red] if step[2] != "count" else g[g["i"] < red]
     raise KeyError(k)
 
 
@@ -330,6 +358,10 @@ def case_api(ctx, inp):
         d = _make_dask(df, inp)
     except Exception as e:  # construction is C41/C45 territory
         ctx.note("construction_failed")
+        return
+    if (inp["part"][0] == "parts" and any(st[0] == "or_filter_binop" for st in inp["steps"])
+            and U.splits_equal_labels(inp["index"], inp["part"][1])):
+        ctx.note("skipped:alignment-needs-colocated-labels")
         return
     base = df
     if inp["part"][0] == "from_pandas" and inp["part"][2] and not df.index.is_monotonic_increasing:
@@ -357,6 +389,8 @@ def case_api(ctx, inp):
             return
         if obj_str and isinstance(e, AttributeError) and ".str accessor" in str(e):
             sig = "api:object-dtype-str-accessor:AttributeError"
+        if obj_str and type(e).__name__ == "UFuncTypeError" and "str_cat" in names:
+            sig = "api:object-dtype-str-accessor:UFuncTypeError"
         ctx.fail(f"pipeline {names} raised {type(e).__name__}", sig=sig, observed=f"{type(e).__name__}: {e}"[:300])
         return
     try:
@@ -388,6 +422,8 @@ def case_align(ctx, inp):
     b = pd.DataFrame({"x": U.mk_series(inp["bx"], index=inp["bi"]), "z": U.mk_series(inp["bz"], index=inp["bi"])})
     da = dd.from_pandas(a, npartitions=inp["na"])
     db = dd.from_pandas(b, npartitions=inp["nb"])
+    if inp.get("b_unknown"):
+        db = db.clear_divisions()
     k = inp["kind"]
     fns = {
         "series_add": lambda p, q: p.x + q.x,
@@ -398,6 +434,10 @@ def case_align(ctx, inp):
         "assign_other": lambda p, q: p.assign(w=q.z),
         "filter_other": lambda p, q: p[q.z.reindex(p.index).fillna(0) > 0] if isinstance(p, pd.DataFrame) else None,
         "frame_mul_series": lambda p, q: p.mul(q.z, axis=0),
+        "proj_of_add": lambda p, q: (p + q)["x"],
+        "proj_list_of_add": lambda p, q: (p + q)[["x", "z"]],
+        "proj_of_method": lambda p, q: p.add(q, fill_value=0)[["x"]],
+        "proj_scalar_of_method": lambda p, q: p.sub(q)["y"],
     }
     if k == "filter_other":
         # boolean predicate from the other frame with the SAME index
@@ -416,6 +456,9 @@ def case_align(ctx, inp):
     except Exception as e:
         ctx.fail(f"aligned op {k} raised {type(e).__name__}", observed=f"{type(e).__name__}: {e}"[:300])
         return
+    if inp.get("b_unknown") and hasattr(got, "sort_index") and got.index.is_unique:
+        got = got.sort_index()      # a shuffle-based alignment does not promise the row order
+        exp = exp.sort_index()
     try:
         if isinstance(exp, pd.DataFrame):
             pd.testing.assert_frame_equal(got, exp, check_exact=False, rtol=1e-12)
@@ -432,6 +475,8 @@ def case_align(ctx, inp):
         ctx.branch("align-different-npartitions")
     if list(inp["ai"]) != list(inp["bi"]):
         ctx.branch("align-different-index")
+    if inp.get("b_unknown"):
+        ctx.branch("align-known-vs-unknown-divisions")
 
 
 CASES = {"pipe": case_pipe, "api": case_api, "align": case_align}
@@ -543,6 +588,10 @@ STEP_MENU = [
     lambda r: ["n_add", r.randint(-2, 2)], lambda r: ["n_fill", 0],
     lambda r: ["bool_ops", r.randint(0, 3)], lambda r: ["neg", r.choice(["i", "f"])],
     lambda r: ["frame_arith", r.randint(2, 3)], lambda r: ["frame_cmp", r.randint(-1, 1)],
+    lambda r: ["cast_filter", r.randint(-1, 2)], lambda r: ["cast_filter_series", r.randint(-1, 2)],
+    lambda r: ["or_filter_binop", r.randint(-1, 3)],
+    lambda r: ["filter_reduction", r.randint(-2, 2), r.choice(["mean", "max", "min", "count", "sum"])],
+    lambda r: ["filter_reduction", r.randint(-2, 2), r.choice(["mean", "max", "count"])],
 ]
 
 
@@ -570,7 +619,10 @@ def gen_api(rng):
     elif t < 0.5:
         inp["part"] = ["chunksize", rng.randint(1, 5)]
     else:
-        inp["part"] = ["parts", U.gen_lens(rng, n, 5), rng.random() < 0.7]
+        lens = U.gen_lens(rng, n, 5)
+        if sorted_idx:
+            lens = U.snap_lens(idx, lens)   # equal labels are co-located, as in every frame dask builds itself
+        inp["part"] = ["parts", lens, rng.random() < 0.7]
     return inp
 
 
@@ -583,8 +635,10 @@ def gen_align(rng):
             "ax": U.gen_cells(rng, len(ai), 0.2), "ay": U.gen_cells(rng, len(ai), 0.2),
             "bx": U.gen_cells(rng, len(bi), 0.2), "bz": U.gen_cells(rng, len(bi), 0.2),
             "na": rng.randint(1, 4), "nb": rng.randint(1, 4),
+            "b_unknown": rng.random() < 0.2,
             "kind": rng.choice(["series_add", "series_sub_fill", "frame_add", "series_cmp", "where_other",
-                                "assign_other", "filter_other", "frame_mul_series"])}
+                                "assign_other", "filter_other", "frame_mul_series", "proj_of_add", "proj_list_of_add",
+                                "proj_of_method", "proj_scalar_of_method"])}
 
 
 def generate(ctx):
